@@ -41,7 +41,7 @@ fn run_job(j: &serde_json::Value) -> serde_json::Value {
             }
             ev.push(serde_json::json!({"e": "end", "role": role, "mode": mode, "status": status, "steps": k, "ledger": ledger(&it), "depth": it.call_depth()}));
         } else {
-            let o = run_source_api(&mut it, &src, path.as_deref(), &resp, "immediate", 0, 300_000, run["api"] == "eval");
+            let o = run_source_api(&mut it, &src, path.as_deref(), &resp, run["host_mode"].as_str().unwrap_or("immediate"), 0, 300_000, run["api"] == "eval");
             let mut exports = tsrun::api::get_export_names(&it); exports.sort();
             ev.push(serde_json::json!({"e": "end", "role": role, "mode": mode, "status": o.status, "steps": o.steps, "events": o.ev, "err": o.err,
                 "ledger": ledger(&it), "depth": it.call_depth(), "exports": exports}));
